@@ -481,6 +481,11 @@ def mutations(r, f, enc):
     inner = agf([enc]) + [0]                     # inner AGF with one spare octet: its length field straddles
     out.append(("agf-nested-lenfield-straddle", agf([inner]) + [2] + hdr(0, 0, 0) + r.choice([[], follow])))
     out.append(("agf-nested-ok", agf([agf([enc]), enc])))
+    # inner AGF with one spare octet t=1: its last length field straddles the slice end and is completed by the
+    # high octet of the next member's length field (1): 257 octets starting at that field's low octet (44 =
+    # DSAP 11, PTYPE 00xx) and running into the next member (a UI PDU from DSAP >= 48, so xx = 11 -> UI)
+    nxt = hdr(r.choice([48, 55, 63]), 3, rsap(r)) + rbytes(r, 298)
+    out.append(("agf-lenfield-straddle", agf([agf([enc] if n < 600 else []) + [1], nxt])))
     return out
 
 
@@ -506,7 +511,7 @@ def jobs(tier, seed):
     js += [("mut", i) for i in range(16 if q else 320)]
     js += [("rand", i) for i in range(8 if q else 160)]
     js += [("big", i) for i in range(4 if q else 64)]
-    js += [("nest", 0)]
+    js += [("nest", d) for d in (NEST_QUICK if q else NEST_THOROUGH)]      # one job per depth: spread over the shards
     return js
 
 
@@ -585,11 +590,10 @@ def job_inputs(tier, seed, fam, arg):
             yield "big", {"bytes": b[:2200]}
     elif fam == "nest":
         leafs = [hdr(0, 0, 0), hdr(32, 4, 1) + [5, 1, 7]]
-        for dpt in (NEST_QUICK if q else NEST_THOROUGH):
-            for leaf in leafs[:1 if dpt > 30 else 2]:
-                b = nested(dpt, leaf)
-                if len(b) <= 2200:
-                    yield "nest:%s" % ("deep" if dpt >= 100 else "shallow"), {"bytes": b}
+        for leaf in leafs[:1 if arg > 30 else 2]:
+            b = nested(arg, leaf)
+            if len(b) <= 2200:
+                yield "nest:%s" % ("deep" if arg >= 100 else "shallow"), {"bytes": b}
     else:
         raise ValueError(fam)
 
